@@ -305,6 +305,18 @@ def r5_r6(tree, prog, rep):
                 and all(r.inp == "got_key" for r in R.rows.values() if w.fn in r.outputs)
     rep.check("C01.R5", "Receive._key is written only from the got_key argument", good, own[0].site if own else R.file,
               key="C01.R5:Receive._key-writers")
+    # on the got_key row the key is recorded BEFORE the held messages are looked at again (they go back through got_message,
+    # which holds them once more while there is no key)
+    from ..automat_x import output_calls
+    for r in R.rows_on("got_key"):
+        setters = [i for i, o in enumerate(r.outputs) if any(w.fn == o for w in own)]
+        users = [i for i, o in enumerate(r.outputs) if any(
+            isinstance(c, ast.Call) and dotted(c.func) in ("self.got_message", "decrypt_data", "derive_phase_key") for c in output_calls(R, o))]
+        if users:
+            rep.check("C01.R5", "Receive %s.got_key records the key before it re-submits the held messages" % r.src,
+                      bool(setters) and max(setters) < min(users), r.site, key="C01.R5:Receive[%s].got_key:order" % r.src,
+                      what="messages held until the key exists are re-submitted while self._key is still None: they are held again and "
+                           "never processed (a wrong code is never reported)")
     # R6 deliveries only after a good decryption
     for r in R.rows.values():
         cs = row_calls(R, r)
